@@ -117,6 +117,10 @@ type stream struct {
 	nilFwd     atomic.Int64
 }
 
+// sharedPlaceholder is the caller-owned placeholder value some histories put under the
+// transport-cc id of every header they build.
+var sharedPlaceholder = []byte{0, 0}
+
 // header shape kinds (evidence counters)
 const (
 	kNone = iota
@@ -167,6 +171,7 @@ type env struct {
 	// only checks that successive numbers are consecutive (main goroutine only)
 	ff       *ffGate
 	ffW      interceptor.RTPWriter
+	sharedExt bool // headers with a pre-existing transport-cc element share ONE payload slice
 	sib      interceptor.RTPWriter // a stream of a second interceptor built by the same factory
 	sibSSRC  uint32
 	ffInfo   *interceptor.StreamInfo
@@ -653,6 +658,11 @@ func (w *writer) prepare(e *env, wantNeg, light bool) *prepared {
 	p.pre.SequenceNumber = uint16(p.idx*7 + uint32(w.gid))
 	if !isNil {
 		cl := p.pre.Clone()
+		if e.sharedExt && p.st.negotiated && len(cl.GetExtension(p.st.id)) == 2 {
+			// the caller's headers carry one shared placeholder under the transport-cc id (its own
+			// memory, read-only to everybody else): the number must still be this packet's
+			_ = cl.SetExtension(p.st.id, sharedPlaceholder)
+		}
 		p.hdr = &cl
 		w.kinds[p.tm.kind]++
 	} else {
@@ -764,6 +774,10 @@ func newEnv(c *vf.Case, r *vf.Rand, o opts) (*env, []*writer, interceptor.Interc
 	if err != nil || icpt == nil {
 		c.Violation("setup/factory", "NewInterceptor: %v", err)
 		return nil, nil, nil
+	}
+	if r.Chance(0.3) {
+		e.sharedExt = true
+		c.Add("histories_whose_headers_share_one_placeholder_element", 1)
 	}
 	if r.Chance(0.3) {
 		// a second interceptor of the SAME factory (another peer connection of one API object)
